@@ -315,29 +315,39 @@ def moveToGroupEnd (l : List DNode) (i : Nat) : List DNode :=
     let grp := after.takeWhile (·.sid == e.sid)
     l.take i ++ grp ++ [e] ++ after.drop grp.length
 
+/-- an operation on a descendant already created this diff node (user-ordered instance moved after its content changed):
+the operation is replaced, children without an explicit operation keep the old one (`none`) -/
+def reuseNode (S : Schema) (e : DNode) (a : Attrs) : DNode :=
+  let e1 := e.setMetas (eraseMeta "operation" e.metas)
+  let ks := e1.kids.map fun k =>
+    if S.isKey k.sid || (getMeta k "operation").isSome then k else addMeta k "operation" Op.none.bytes
+  withAttrs S (e1.setKids ks) a
+
+/-- the existing diff node `out[i]` takes the operation; a user-ordered one moves behind its fellow instances -/
+def addExisting (S : Schema) (out : List DNode) (node : DNode) (a : Attrs) (i : Nat) : List DNode × Option (Nat × Nat) :=
+  match out[i]? with
+  | Option.none => (out, some (i, i))
+  | some e =>
+    let e2 := reuseNode S e a
+    let out' := out.set i e2
+    if S.isUserOrd node.sid then
+      (moveToGroupEnd out' i, some (i, i + ((out'.drop (i + 1)).takeWhile (·.sid == e2.sid)).length))
+    else (out', some (i, i))
+
+/-- the copy of `node` that goes into the diff: the whole subtree, except for the move of a configuration user-ordered
+list instance ("move applies only to the user-ordered list, no descendants") -/
+def newNode (S : Schema) (node : DNode) (a : Attrs) : DNode :=
+  let recursive := !(a.op == .replace && S.isUserOrd node.sid && S.config node.sid)
+  withAttrs S (if recursive then dupRec node else dupShallow S node) a
+
 /-- The node for `(node, attrs)` at this diff level.  Second component: `none` — a new node was inserted
 (`lyd_diff_insert_sibling` at the top level re-computes the first sibling); `some (i, j)` — the existing node `i` was
 re-used and now sits at index `j`. -/
 def addAt (S : Schema) (out : List DNode) (node : DNode) (a : Attrs) : List DNode × Option (Nat × Nat) :=
   let existing := if S.isDupInst node.sid then Option.none else findIdxFrom (fun x _ => sameInst S x node) out 0
   match existing with
-  | some i =>
-    -- an operation on a descendant already created this node (user-ordered instance moved after its content changed)
-    match out[i]? with
-    | Option.none => (out, some (i, i))
-    | some e =>
-      let e1 := e.setMetas (eraseMeta "operation" e.metas)
-      let ks := e1.kids.map fun k =>
-        if S.isKey k.sid || (getMeta k "operation").isSome then k else addMeta k "operation" Op.none.bytes
-      let e2 := withAttrs S (e1.setKids ks) a
-      let out' := out.set i e2
-      if S.isUserOrd node.sid then
-        (moveToGroupEnd out' i, some (i, i + ((out'.drop (i + 1)).takeWhile (·.sid == e2.sid)).length))
-      else (out', some (i, i))
-  | Option.none =>
-    let recursive := !(a.op == .replace && S.isUserOrd node.sid && S.config node.sid)
-    let d := if recursive then dupRec node else dupShallow S node
-    (insertBySchema (withAttrs S d a) out, Option.none)
+  | some i => addExisting S out node a i
+  | Option.none => (insertBySchema (newNode S node a) out, Option.none)
 
 /-! ## one sibling level -/
 
@@ -380,6 +390,29 @@ def wrapParent (S : Schema) (top : Bool) (st : St) (a b : DNode) (sub : St) : St
   let p := DNode.inner hdr.sid { hdr.flags with dflt := hdr.flags.dflt && sub.out.all (·.flags.dflt) } metas (hdr.kids ++ sub.out)
   { st.emit (insertBySchema p st.out) sub.side (sub.fd + 1) with ptr := 0 }
 
+/-- first pass, user-ordered node `a = first[i]`: only a delete is handled now -/
+def phase1UO (S : Schema) (defaults : Bool) (first second : List DNode) (st : St) (a : DNode) (i : Nat)
+    (m : Option Nat) : St :=
+  let item := uoGet st.uo a.sid first true
+  match m with
+  | Option.none =>
+    let r := userordAttrs S defaults first second item (some i) Option.none
+    let st := { st with uo := uoSet st.uo r.2 }
+    match r.1 with
+    | some atr => st.add S a atr false
+    | Option.none => st
+  | some _ => { st with uo := uoSet st.uo item }
+
+/-- first pass, any other node: `lyd_diff_attrs` — delete (of `a`) or replace / none (the diff gets the node of the second tree) -/
+def phase1Plain (S : Schema) (defaults : Bool) (second : List DNode) (st : St) (a : DNode) (m : Option Nat) : St :=
+  match plainAttrs S defaults (some a) (m.bind (second[·]?)) with
+  | some atr =>
+    if atr.op == .delete then st.add S a atr false
+    else match m.bind (second[·]?) with
+      | some b => st.add S b atr true
+      | Option.none => st
+  | Option.none => st
+
 /-- first pass of `lyd_diff_siblings_r`, one node `a = first[i]`: delete / replace / none, then the recursion into the
 matched pair (`recur` = `lyd_diff_siblings_r` on the children) -/
 def phase1Step (S : Schema) (defaults top : Bool) (recur : List DNode → List DNode → St) (first second : List DNode)
@@ -387,28 +420,11 @@ def phase1Step (S : Schema) (defaults top : Bool) (recur : List DNode → List D
   let a := p.1
   let i := p.2
   if a.flags.dflt && !defaults then st else
-  let (m, used') := findMatch S second a defaults st.used
-  let st := { st with used := used' }
-  let st :=
-    if S.isUserOrd a.sid then
-      let item := uoGet st.uo a.sid first true
-      match m with
-      | Option.none =>
-        let (atrO, item') := userordAttrs S defaults first second item (some i) Option.none
-        let st := { st with uo := uoSet st.uo item' }
-        match atrO with
-        | some atr => st.add S a atr false
-        | Option.none => st
-      | some _ => { st with uo := uoSet st.uo item }
-    else
-      match plainAttrs S defaults (some a) (m.bind (second[·]?)) with
-      | some atr =>
-        if atr.op == .delete then st.add S a atr false
-        else match m.bind (second[·]?) with
-          | some b => st.add S b atr true
-          | Option.none => st
-      | Option.none => st
-  match m.bind (second[·]?) with
+  let fm := findMatch S second a defaults st.used
+  let st := { st with used := fm.2 }
+  let st := if S.isUserOrd a.sid then phase1UO S defaults first second st a i fm.1
+    else phase1Plain S defaults second st a fm.1
+  match fm.1.bind (second[·]?) with
   | some b => wrapParent S top st a b (recur (noKeys S a.kids) (noKeys S b.kids))
   | Option.none => st
 
